@@ -77,6 +77,11 @@ func (vc *VC) specialCall(st *State, fn *types.Func, recvExpr ast.Expr, call *as
 			// A-POOL: a new object or one previously Put; contents arbitrary
 			r := vc.declare("pool.get", SRef)
 			vc.assumeAllocated(st, r)
+			vc.assume(st, not(eq(r, "nil")))
+			vc.assumeUnreachable(st, r, true)
+			// accesses to recycled objects are outside C19 (which is stated for the pool-off configuration)
+			pl := vc.heapGet(st, "gh.pooled", ArrSort(SRef, SBool))
+			vc.heapSet(st, "gh.pooled", ArrSort(SRef, SBool), store(pl, r, "true"))
 			return sc(r, SRef), true
 		}
 		return &TupleV{}, true
@@ -320,8 +325,18 @@ func (vc *VC) chanRecv(st *State, x *ast.UnaryExpr) Val {
 
 func (vc *VC) chanSend(st *State, s *ast.SendStmt) {
 	vc.eval(st, s.Chan)
-	vc.evalAssignable(st, s.Value)
+	v := vc.evalAssignable(st, s.Value)
 	vc.blockingOp(st, s.Pos(), "send", s.Chan)
+	// channel contract: chansend_<field> on the owner type (message invariant as requires, ghost effects)
+	if se, ok := unparen(s.Chan).(*ast.SelectorExpr); ok {
+		if selInfo, ok := vc.info.Selections[se]; ok && selInfo.Kind() == types.FieldVal {
+			key := ownerName(selInfo.Recv()) + ".chansend_" + se.Sel.Name
+			if si, ok := vc.prog.fspec[key]; ok {
+				recv := vc.eval(st, se.X)
+				vc.callModular(st, nil, si, recv, []Val{v}, s.Pos(), key)
+			}
+		}
+	}
 }
 
 // blockingOp is a hook for the C10 structural termination obligations.
@@ -330,6 +345,11 @@ func (vc *VC) blockingOp(st *State, pos token.Pos, what string, ch ast.Expr) {
 		return
 	}
 	vc.blocking = append(vc.blocking, blockSite{Pos: vc.prog.pos(pos), What: what, Chan: exprString(ch), PC: st.pc})
+	if vc.dry == 0 && !vc.specMode {
+		// C10 (sufficient condition): a channel operation outside a select has no cancellation alternative; it
+		// terminates only if its counterpart is alive, which no contract here establishes
+		vc.oblige(st, "blocking", what, pos, "false", what+" on "+exprString(ch)+" outside a select: may block forever once its counterpart has exited")
+	}
 }
 
 type blockSite struct {
